@@ -71,6 +71,9 @@ func noteMsg(m wm.Msg, w []byte) {
 			for _, o := range f.Opts {
 				if f.K == wm.Opts {
 					classes = append(classes, fmt.Sprintf("opt:%d", o.Code))
+					if o.Code == 10 {
+						classes = append(classes, cookieClass(len(o.Data)))
+					}
 				} else {
 					classes = append(classes, fmt.Sprintf("svcparam:%d", o.Code))
 				}
@@ -164,6 +167,66 @@ func checkMsg(c msgCase) error {
 	return nil
 }
 
+// RFC 7873 section 4: a COOKIE option is a client cookie of 8 octets, alone or followed by a server
+// cookie of 8..32 octets (OPTION-LENGTH 8 or 16..40); every other length is a format error (5.2.2),
+// i.e. not "RFC-well-formed" and outside the statement (a library that refuses it is right).
+// gen.EDNSOption draws 0..40 octets for code 10: lengths 0..7 are lengthened to 8 and 9..15 to 16 by
+// repeating the drawn octets - a pure function of the draw, nothing is thrown away.
+func wellFormedCookie(d []byte) []byte {
+	want := len(d)
+	switch {
+	case want < 8:
+		want = 8
+	case want > 8 && want < 16:
+		want = 16
+	default:
+		return d
+	}
+	out := make([]byte, want)
+	for i := range out {
+		if len(d) > 0 {
+			out[i] = d[i%len(d)]
+		}
+	}
+	return out
+}
+
+func cookieClass(n int) string {
+	switch {
+	case n == 8:
+		return "cookie:client-only"
+	case n >= 16 && n <= 32:
+		return "cookie:server-8..24"
+	case n >= 33 && n <= 40:
+		return "cookie:server-25..32"
+	}
+	return "cookie:ILL-FORMED"
+}
+
+func cookiesRec(r *wm.Rec) {
+	if r.Type != wm.TOPT {
+		return
+	}
+	for i := range r.Fields {
+		if r.Fields[i].K != wm.Opts {
+			continue
+		}
+		for j := range r.Fields[i].Opts {
+			if o := &r.Fields[i].Opts[j]; o.Code == 10 {
+				o.Data = wellFormedCookie(o.Data)
+			}
+		}
+	}
+}
+
+func cookiesMsg(m *wm.Msg) {
+	for _, sec := range m.Sections() {
+		for i := range *sec {
+			cookiesRec(&(*sec)[i])
+		}
+	}
+}
+
 func avoid() map[string]bool {
 	return map[string]bool{
 		"amtrelay-dbit":   pbt.Known("amtrelay-dbit"),
@@ -182,6 +245,7 @@ func genMsg(t *rapid.T) msgCase {
 		mo.MaxRecs = 120
 	}
 	m := gen.Msg(t, mo)
+	cookiesMsg(&m)
 	if rapid.IntRange(0, 40).Draw(t, "bigrcode") == 0 {
 		m.Rcode = rapid.IntRange(16, 4095).Draw(t, "rc") // unrepresentable unless an OPT is present
 		if gen.Rarely(t, 2) {
@@ -238,6 +302,7 @@ func genCounts(t *rapid.T) msgCase {
 			m.Ex = m.Ex[:65534]
 		}
 		m.Ex = append(m.Ex, gen.OptRec(t, &gen.Opts{Plain: true}))
+		cookiesRec(&m.Ex[len(m.Ex)-1])
 		if rapid.Bool().Draw(t, "extrcode") {
 			m.Rcode = rapid.IntRange(16, 4095).Draw(t, "rc")
 		}
@@ -340,7 +405,9 @@ func bucket(n int) int {
 
 func genRR(t *rapid.T) rrCase {
 	o := &gen.Opts{Avoid: avoid(), Excluded: pbt.Excluded, NoRdata: true, Unknown: true, BigBlob: true}
-	return rrCase{R: gen.Rec(t, o)}
+	r := gen.Rec(t, o)
+	cookiesRec(&r)
+	return rrCase{R: r}
 }
 
 // every type of the table at least once per run, independent of the random type choice
